@@ -49,7 +49,9 @@ class RouteRefresh(object):
 
          :param msg: raw hex message """
 
-        self.afi, self.res, self.safi = struct.unpack("!HBB", msg)
+        # a ROUTE-REFRESH may carry more than the <AFI, Res, SAFI> triple
+        # (e.g. an ORF part, RFC 5291); decode the fixed part
+        self.afi, self.res, self.safi = struct.unpack("!HBB", msg[:4])
         return self.afi, self.res, self.safi
 
     @staticmethod
